@@ -461,7 +461,14 @@ def gen_struct_value(rng, program, sdef, depth=0):
         base = new_value(program, sdef)
         for f in fields:
             if f is chosen:
-                v[f["id"]] = _gen_field_set(rng, program, f, depth)
+                val = _gen_field_set(rng, program, f, depth)
+                for _ in range(8):
+                    # a chosen member holding exactly its declared default counts as unset in the generated Go (IsSet compares
+                    # with the default): that value of the union does not exist on the Go side
+                    if f.get("default") is None or val != f["default"]["value"]:
+                        break
+                    val = gen_value(rng, program, f["type"], depth + 1)
+                v[f["id"]] = val
             else:
                 v[f["id"]] = base[f["id"]]
         return v
